@@ -48,8 +48,11 @@ structure Comp where
   fr : Option FailureRecord
   ban : Option BanRecord
   pend : List Dec
+  /-- collected by the scan phase of a clean-up pass that is split in two critical sections
+  (`sweepScan`), consumed by its delete phase (`sweepDelete`) -/
+  marked : Bool
 
-def Comp.empty : Comp := ⟨none, none, []⟩
+def Comp.empty : Comp := ⟨none, none, [], false⟩
 
 /-- `failTime.After(now.Add(-TimeWindow))` -/
 def inWindow (cfg : BruteForceConfig) (now ft : Nat) : Bool := decide (now < ft + cfg.TimeWindow)
@@ -112,33 +115,48 @@ def cleanupFr (cfg : BruteForceConfig) (now : Nat) (fr : Option FailureRecord) :
   | none => none
   | some r => if (cleanupOldFailures cfg now r).Failures.length == 0 then none else some (cleanupOldFailures cfg now r)
 
+/-- scan phase of a two-phase sweep: is this record a temporary ban that is over? -/
+def sweepMark (now : Nat) (ban : Option BanRecord) : Bool :=
+  match ban with
+  | none => false
+  | some r => !(timeIsZero r.ExpiresAt) && timeAfter now r.ExpiresAt
+
 /-- Events on the protector.  `fail` is a whole `RecordFailure` call; `failRec`/`failBan i` are its
 two atomic steps taken apart (`failBan i` applies the `i`-th pending decision); `asyncUnban` is one
-execution of the goroutine spawned by `IsBanned`, at whatever later point the scheduler runs it. -/
+execution of the goroutine spawned by `IsBanned`, at whatever later point the scheduler runs it.
+`cleanup` is the clean-up pass as the code has it (`skel_cleanup`: one `mu` section, one `banMu`
+section, back to back); `cleanFr`/`cleanBan` are those two sections taken apart, and
+`sweepScan`/`sweepDelete` are a ban sweep cut into a scan phase and a delete phase that looks at each
+collected record again before deleting it — any other event may sit between the phases. -/
 inductive Ev
   | fail (ip : Nat) | failRec (ip : Nat) | failBan (ip : Nat) (i : Nat)
   | success (ip : Nat) | query (ip : Nat) | asyncUnban (ip : Nat) | cleanup
+  | cleanFr | cleanBan | sweepScan | sweepDelete
 deriving Repr
 
 def Ev.target : Ev → Option Nat
   | .fail a | .failRec a | .failBan a _ | .success a | .query a | .asyncUnban a => some a
-  | .cleanup => none
+  | .cleanup | .cleanFr | .cleanBan | .sweepScan | .sweepDelete => none
 
 /-- One event on the component of its address (for `cleanup`: on every component). -/
 def compStep (cfg : BruteForceConfig) (t : Nat) (e : Ev) (c : Comp) : Comp × Option Bool :=
   match e with
   | .fail _ =>
-    (⟨some (recordStep1 cfg t c.fr), applyDec cfg t (recordDec cfg t c.fr) c.ban, c.pend⟩,
+    (⟨some (recordStep1 cfg t c.fr), applyDec cfg t (recordDec cfg t c.fr) c.ban, c.pend, c.marked⟩,
      some (recordDec cfg t c.fr != .none))
   | .failRec _ =>
     (⟨some (recordStep1 cfg t c.fr), c.ban,
-      if recordDec cfg t c.fr != .none then c.pend ++ [recordDec cfg t c.fr] else c.pend⟩, none)
+      if recordDec cfg t c.fr != .none then c.pend ++ [recordDec cfg t c.fr] else c.pend, c.marked⟩, none)
   | .failBan _ i =>
-    (⟨c.fr, applyDec cfg t (c.pend.getD i .none) c.ban, c.pend.eraseIdx i⟩, none)
-  | .success _ => (⟨none, c.ban, c.pend⟩, none)
+    (⟨c.fr, applyDec cfg t (c.pend.getD i .none) c.ban, c.pend.eraseIdx i, c.marked⟩, none)
+  | .success _ => (⟨none, c.ban, c.pend, c.marked⟩, none)
   | .query _ => (c, some (isBanned t c.ban))
-  | .asyncUnban _ => (⟨c.fr, unbanIfExpired t c.ban, c.pend⟩, none)
-  | .cleanup => (⟨cleanupFr cfg t c.fr, cleanupBan t c.ban, c.pend⟩, none)
+  | .asyncUnban _ => (⟨c.fr, unbanIfExpired t c.ban, c.pend, c.marked⟩, none)
+  | .cleanup => (⟨cleanupFr cfg t c.fr, cleanupBan t c.ban, c.pend, c.marked⟩, none)
+  | .cleanFr => (⟨cleanupFr cfg t c.fr, c.ban, c.pend, c.marked⟩, none)
+  | .cleanBan => (⟨c.fr, cleanupBan t c.ban, c.pend, c.marked⟩, none)
+  | .sweepScan => (⟨c.fr, c.ban, c.pend, sweepMark t c.ban⟩, none)
+  | .sweepDelete => (⟨c.fr, if c.marked then cleanupBan t c.ban else c.ban, c.pend, false⟩, none)
 
 abbrev State := Nat → Comp
 def State.empty : State := fun _ => Comp.empty
